@@ -82,6 +82,12 @@ EDGES = {
     "flatten_map": "pub struct R§ { #[ts(flatten)] pub m: BTreeMap<String, M§>, pub z: i32 }",
     "case_twins": "pub struct R§ { pub a: Cs§, pub b: CS§ }",
     # deep graphs: a chain of 40 types; a type reached both through a chain of 15 (16 levels below the root) and directly
+    # library types inlined: what their ELEMENTS' definitions name is needed, the elements themselves are not
+    "inline_tuple": "pub struct R§ { #[ts(inline)] pub f: (i32, M§) }",
+    "inline_vec_tuple": "pub struct R§ { #[ts(inline)] pub f: Vec<(M§, Option<M§>)>, pub n: i32 }",
+    "inline_option_box": "pub struct R§ { #[ts(inline)] pub f: Option<Box<M§>> }",
+    "inline_map_array": "pub struct R§ { #[ts(inline)] pub f: BTreeMap<String, [M§; 2]> }",
+    "container_as_tuple": '#[ts(as = "(M§, i32)")] pub struct R§ { pub whatever: i32 }',
     "deep_chain": "pub struct R§ { pub chain: J01§ }",
     "deep_diamond": "pub struct R§ { pub chain: K01§, pub shared: KS§ }",
 }
@@ -143,6 +149,11 @@ EDGE_DEPS = {
     "same_tail_specifiers": (["SA", "SB"], []),
     "flatten_map": ([], ["M"]),          # the inline form of a map inlines its value type
     "case_twins": (["Cs", "CS"], []),
+    "inline_tuple": ([], ["M"]),
+    "inline_vec_tuple": ([], ["M"]),
+    "inline_option_box": ([], ["M"]),
+    "inline_map_array": ([], ["M"]),
+    "container_as_tuple": ([], ["M"]),
     "deep_chain": (["J01"], []),
     "deep_diamond": (["K01", "KS"], []),
 }
@@ -395,7 +406,8 @@ def run(tier):
     # dangling import in the files of its closure (Trace_Export.tla, verdict C03i)
     import exportchecks
     hstats = {}
-    hres = exportchecks.run_slice("hist", tier, hstats)
+    # (... also along the fault histories: an export that returns Ok although a dependency could not be written)
+    hres = exportchecks.run_slice("hist", tier, hstats) + exportchecks.run_slice("faults", tier, hstats)
     for r_ in hres:
         for b in r_["bad"]:
             if b["tag"] == "C03i_dangling_import":
